@@ -34,10 +34,10 @@ def scripts_for(tier, seed):
     n_vec = 250 if quick else 3125
     for i, v in enumerate(props.sample(vecs, n_vec, r)):
         scripts.append(S.overflow_script(r, i, fate_vec=v) if i % 2 else S.app_script(r, i, fate_vec=v))
-    counts = {"overflow": 300, "app": 300, "limits": 350, "mtu": 250, "hostile": 120} if quick else \
-             {"overflow": 6000, "app": 6000, "limits": 5000, "mtu": 5000, "hostile": 1500}
+    counts = {"overflow": 300, "app": 300, "limits": 350, "mtu": 250, "hostile": 120, "burst": 400} if quick else \
+             {"overflow": 6000, "app": 6000, "limits": 5000, "mtu": 5000, "hostile": 1500, "burst": 6000}
     gens = {"overflow": S.overflow_script, "app": S.app_script, "limits": S.limits_script,
-            "mtu": S.mtu_script, "hostile": S.hostile_script}
+            "mtu": S.mtu_script, "hostile": S.hostile_script, "burst": S.burst_script}
     for fam, n in counts.items():
         for i in range(n):
             scripts.append(gens[fam](r, i))
